@@ -40,6 +40,29 @@ CLAIMED = {
         "C20_chunking (any segmentation = one read of the concatenation), C20_no_loss / C20_no_loss_valid (marker-free noise loses nothing), C20_resync / C20_resync_resume / C20_stream (after ANY bytes at most the first packet is lost, the next is cut intact and the loop is in step again; whole streams of packets and arbitrary gaps via must_cut), C20_checksum / C20_checksum_any (only 20-byte AA 55 windows with matching additive checksum reach _decode), C20_bounded / C20_bounded_step (<= 19 bytes kept after every read, <= 119 while processing, streams of any length), C20_repair_same_packets, C20_pinned_unbounded (F-serialbuf as a theorem about the unrepaired loop). All inputs, segmentations, lengths; no bounded search.",
         "Trusted: Coq kernel + vm_compute; Serial.v as a model of _receive_impl's loop, decode_usb's acceptance test and calculate_canbus_checksum, tied by seeded sessions of the real client (stub reader, exhaustive segmentations of short streams, random ones of long streams); bytearray find/endswith/slice semantics; _decode/queue/callback after the acceptance test are not modelled here (checked on the real client by the search oracle only); non-empty reads (empty read = C13). Theorems closed under the global context.",
         "DESIGN.md §5 C20"),
+ "C02": ("Coq proofs (bit-level insert-then-extract over disjoint layouts; sentinel and sign arithmetic) + kernel-checked "
+         "equality of all 417 translated encoders with the encoder template of their database record and of the layout side "
+         "conditions, regenerated per run + correspondence of encoder interpreter and utils encoder models (bit-exact floats)",
+         "C02_bits (tools/templates/OblC02.v, per run): for every encodable definition (263) and EVERY message, each field of "
+         "the integer the generated encoder produces reads back as the value its conversion produced (mod 2^len); C02_absent "
+         "(None -> not-available pattern -> None), C02_number (accepted numbers read back, sign-extended, as round(value/"
+         "resolution), never as not-available), C02_lookup_reserved (raw bits unchanged). PARTIAL: that round(fl(fl(n)*r)/r) = n "
+         "on IEEE doubles (the step from 'rounded quotient' to 'the original raw value') is established by the witness search "
+         "(every raw value of small fields, boundary classes of all fields) and the design's Flocq spike, not yet by a theorem "
+         "in this development.",
+         "Trusted: Coq kernel + vm_compute + native float primitives; translators; Encode.v hand model of utils encoders, "
+         "Python round() and true division, tied by ~5k kernel-decided cases per run. Known finding: 64-bit field at the very "
+         "edge of its range cannot be re-encoded.",
+         "DESIGN.md §5 C02"),
+ "C09": ("Coq proofs of the decision rules of the encoder model (range rejection, missing field, bit locality, absent) + "
+         "per-run kernel-checked encoder tables + correspondence on the value classes of the quantifier text",
+         "C09_range (an accepted number's rounded quotient lies in the representable interval with the top code reserved; "
+         "two's complement, never wrapped or clipped), C09_missing (a message lacking a listed field is never encoded), "
+         "C09_local (changing a field changes only its bits), C09_reads_back, C09_absent; C02_bits for the tables of this run. "
+         "PARTIAL: 'decodes back to within half a resolution step' involves IEEE rounding of value/resolution and raw*resolution "
+         "and is decided by the encode->decode oracle on the real code, not by a theorem.",
+         "Trusted: as C02. Known findings: RESERVED values and LOOKUP raw values are masked without a range check.",
+         "DESIGN.md §5 C09"),
 }
 PENDING_REASON = "not claimed yet: model/theorems for this property are still being built (see DESIGN.md §9 build order)"
 
